@@ -140,7 +140,24 @@ def run(r):
     n = 300 if r.tier == "quick" else 5000
     res = r.run_family("rang3", n=n)
     analyse(r, "rang3", res)
-    r.assumptions += ["int32 arithmetic does not overflow on code points (model uses Int)",
+    # class expressions as TEXT through the real front end (escapes, escaped dash in every position, ~, difference)
+    res2 = r.run_family("classtext", n=400 if r.tier == "quick" else 20000)
+    orc = open(res2["dir"] + "/oracle.txt", encoding="utf-8", errors="replace").read().split("\n")
+    hits = [(i, c, res2["impl"][i], orc[i]) for i, c in enumerate(res2["cases"]) if i < len(orc) and orc[i].strip()]
+    r.obligations.append(("oracle classtext: GetRanges of every class expression parsed from text = the meaning of its written items (support, not proof)",
+                          not hits, "%d failing of %d" % (len(hits), len(res2["cases"]))))
+    for (i, c, im, o) in hits[:3]:
+        r.violation("classtext-%d" % i, {"kind": "property-violated-by-implementation", "what": o[:4000], "case": c, "implementation": im,
+                                          "model": res2["model"][i] if i < len(res2["model"]) else None}, True)
+    mm = res2["mismatches"]
+    r.obligations.append(("correspondence classtext: classItems (on_char_class) + ClassExpr.eval (GetRanges) = real front end on every class text",
+                          not mm and len(res2["cases"]) > 0, "%d mismatches" % len(mm)))
+    if mm and not hits:
+        i, c, im, mo = mm[0]
+        r.violation("classtext-corr", {"kind": "correspondence-broken", "family": "classtext", "first_disagreement": {"case": c, "implementation": im, "model": mo},
+                                       "count": len(mm), "note": "theorems class_items_as_written / class_text_den / eval_den are about Lox.Rang3.classItems and ClassExpr.eval"}, False)
+    r.assumptions += ["the tokens of a class (CLASS_CHAR / CLASS_DASH and their code points) are produced by the shipped front-end lexer, whose tables are validated under C14; the family feeds text, the model receives the intended token list",
+                      "int32 arithmetic does not overflow on code points (model uses Int)",
                       "the order of ranges with equal lower bound after Flatten's second (unstable) sort does not affect the result (proved for the merge loop: see Lox.Props.C15)"]
     return r.finish(LEVEL, "theorems: range algebra denotations for all lists of ranges (induction, no universe bound); tie: exhaustive small universe + boundary sampling vs the real rang3 functions",
                     common.TRUSTED_COMMON)
